@@ -137,6 +137,9 @@ def _shrink_task(case, violation):
     clause (and the same 'kind' classification)."""
     prop = _PROP
     budget = prop.shrink_budget
+    tmo = prop.timeout_s
+    if violation.get('extra', {}).get('kind') in ('timeout', 'stepcap'):
+        budget, tmo = min(budget, 40), min(tmo, 6.0)
     cur, curv = case, violation
     improved = True
     runs = 0
@@ -149,7 +152,7 @@ def _shrink_task(case, violation):
             cand = dict(cand)
             cand['_seed'] = case.get('_seed')
             cand['_index'] = case.get('_index')
-            r = run_guarded(prop.run, cand, prop.timeout_s, prop.timeout_clause)
+            r = run_guarded(prop.run, cand, tmo, prop.timeout_clause)
             if r['status'] == 'violation' and _same_violation(r['violation'], violation):
                 cur, curv = cand, r['violation']
                 improved = True
